@@ -51,11 +51,11 @@ func runC11(c *Check) {
 				what = "read of the persisted log"
 			}
 		case *ssa.Go:
-			if x.Call.StaticCallee() == r.Deliver {
+			if CalleeFn(&x.Call) == r.Deliver {
 				what = "start of a replay"
 			}
 		case *ssa.Call:
-			if x.Call.StaticCallee() == r.AddSub {
+			if CalleeFn(&x.Call) == r.AddSub {
 				what = "registration"
 			}
 		}
@@ -118,7 +118,7 @@ func runC11(c *Check) {
 				crit = append(crit, in)
 			}
 		case *ssa.Call:
-			if x.Call.StaticCallee() == r.Fan {
+			if CalleeFn(&x.Call) == r.Fan {
 				crit = append(crit, in)
 			}
 		}
@@ -173,7 +173,7 @@ func runC11(c *Check) {
 	// O3 replay loop
 	var gos []*ssa.Go
 	AllInstrs(R, func(in ssa.Instruction) {
-		if g, ok := in.(*ssa.Go); ok && g.Call.StaticCallee() == r.Deliver {
+		if g, ok := in.(*ssa.Go); ok && CalleeFn(&g.Call) == r.Deliver {
 			gos = append(gos, g)
 		}
 	})
